@@ -43,13 +43,23 @@ def main():
     i = args.index("--only"); only = args[i + 1]; del args[i:i + 2]
   ids = args or sorted(f[:-5] for f in os.listdir(os.path.join(HERE, "mutants")) if f.endswith(".json"))
   bad = 0
+  rows = []
   for pid in ids:
     for m in json.load(open(os.path.join(HERE, "mutants", pid + ".json"))):
       if only and m["name"] != only:
         continue
       res, dt = run(pid, m, tier)
       print("%s %-40s %s [%.0fs]" % (pid, m["name"], res, dt), flush=True)
+      rows.append((pid, m["name"], (m.get("edits") or [m])[0]["file"], res, dt))
       bad += not res.startswith("KILLED")
+  if not args and not only:
+    # a full audit rewrites the committed table
+    head = subprocess.run("git -C %s rev-parse --short HEAD" % REPO, shell=True, capture_output=True, text=True).stdout.strip()
+    out = ["# Mutation audit (tools/mutation_audit.py, tier %s, /repo at %s, VERIF_SEED=%s)" % (tier, head, os.environ.get("VERIF_SEED", "1")), "",
+           "%d mutants, %d killed." % (len(rows), sum(r[3].startswith("KILLED") for r in rows)), "",
+           "| check | mutant | file | result (first buckets) | s |", "|---|---|---|---|---|"]
+    out += ["| %s | %s | %s | %s | %.0f |" % (a, b.replace("|", "/"), c, d.replace("|", "/")[:200], e) for a, b, c, d, e in rows]
+    open(os.path.join(HERE, "mutants", "AUDIT.md"), "w").write("\n".join(out) + "\n")
   return 1 if bad else 0
 
 if __name__ == "__main__":
